@@ -190,6 +190,35 @@ def tables(repo):
     return T, {"default": ords[0], "upper_outer": ords[1], "usn": ords[2]}
 
 
+def xpoint_table(repo):
+    """hypnotoad/cases/torpex.py, TORPEXMagneticField.makeRegions: the four legs of an isolated X-point (order = the literal list `legnames`,
+    in which the regions dictionary is filled) and the makeConnection calls"""
+    path = os.path.join(repo, "hypnotoad/cases/torpex.py")
+    fn = get_function(path, "TORPEXMagneticField.makeRegions")
+    names = literal_lists(fn, "legnames")
+    if len(names) != 1 or not all(isinstance(e, ast.Constant) and isinstance(e.value, str) for e in names[0].elts):
+        raise TranslationError("torpex.makeRegions: expected one literal list `legnames`")
+    order = [e.value for e in names[0].elts]
+    # the regions dictionary must be filled in that order: `name = legnames[i]` ... `self.regions[name] = ...` inside one loop over enumerate(...)
+    src = ast.unparse(fn)
+    for frag in ("name = legnames[i]", "self.regions[name] = leg.getRefined(psi=self.psi)", "self.regions = OrderedDict()"):
+        if frag not in src:
+            raise TranslationError(f"torpex.makeRegions: expected statement missing: {frag}")
+    rows = []
+    for c in ast.walk(fn):
+        if isinstance(c, ast.Call) and src_of(c.func) == "self.makeConnection":
+            if len(c.args) != 4 or not all(isinstance(a, ast.Constant) for a in c.args):
+                raise TranslationError(f"torpex.makeRegions: makeConnection call is not literal: {src_of(c)}")
+            rows.append((c.lineno, tuple(a.value for a in c.args)))
+    rows = [r for _, r in sorted(rows)]
+    if len(rows) != 4:
+        raise TranslationError(f"torpex.makeRegions: expected 4 connections, found {len(rows)}")
+    for a, i, b, j in rows:
+        if a not in order or b not in order:
+            raise TranslationError(f"torpex.makeRegions: connection names an unknown region: {(a, i, b, j)}")
+    return order, rows
+
+
 def region_order(table, ordering):
     names = {r for a, _, b, _ in table for r in (a, b)}
     return [r for r in ordering if r in names]
@@ -222,6 +251,14 @@ def emit(repo):
             L.append(f"Definition conn_{name}_uo : list ((nat * nat) * (nat * nat)) := [{rows2}].")
             info["tables"][name + "_uo"] = {"order": order2, "connections": table}
         L.append("")
+    # the isolated X-point topology (TORPEX): four legs, all ending on the wall
+    xorder, xrows = xpoint_table(repo)
+    xidx = {r: i for i, r in enumerate(xorder)}
+    L.append(f"(* isolated X-point (torpex.py), regions in output order: {xorder} *)")
+    L.append("Definition conn_xpt : list ((nat * nat) * (nat * nat)) := [" + "; ".join(f"(({xidx[a]}, {i}), ({xidx[b]}, {j}))%nat" for a, i, b, j in xrows) + "].")
+    L.append("Definition nregions_xpt : nat := 4%nat.")
+    L.append("")
+    info["tables"]["xpt"] = {"order": xorder, "connections": xrows}
     info["ladder_source"] = src
     info["orderings"] = ords
     return "\n".join(L), info
